@@ -104,14 +104,14 @@ def model_text(tpl: str, nodes: dict, sel: list[str], prefix: str, next_id: int)
     return tpl.format(accept_type=" | ".join(sel), imports=imports, prefix=prefix, id=next_id, pattern=" | ".join(f"{x}()" for x in sel))
 
 
-def real_generate(sel: list[str], prefix: str, target: Path) -> str:
+def real_generate(sel: list[str], prefix: str, target: Path, workdir: Path | None = None, answer: str | None = None) -> str:
     import refurb.gen as g
-    answers = iter(["\n".join(sel), str(target), prefix])
+    answers = iter(["\n".join(sel), answer if answer is not None else str(target), prefix])
     orig = g.fzf
     g.fzf = lambda data, args: next(answers) + ("" if "--multi" in args else "")
     cwd = os.getcwd()
     try:
-        os.chdir(target.parent.parent if target.parent.name else target.parent)
+        os.chdir(workdir if workdir is not None else target.parent.parent if target.parent.name else target.parent)
         g.main()
     finally:
         g.fzf = orig
@@ -225,6 +225,33 @@ def run(ctx: Ctx) -> None:
                     mism.append(f"selection {tie_rows[si * per + j][0]}")
             ctx.obligation("correspondence: template instantiated with Lib/GenTpl.v build_imports/accept_type/pattern/next_id = text written by refurb.gen.main",
                            not mism, "; ".join(mism[:4]))
+        # ---- where the file is put: any path the user may answer, inside or outside the working directory, folders new or not
+        w1 = td / "w1"
+        (w1 / "deep").mkdir(parents=True)
+        (td / "existing").mkdir()
+        placements = [("inside-new-folders", w1, "a/b/c/check1.py"), ("outside-absolute-new-folders", w1, str(td / "out1" / "x" / "y" / "check2.py")),
+                      ("outside-relative-new-folders", w1, "../out2/p/check3.py"), ("working-directory-itself", w1, "check4.py"),
+                      ("outside-existing-folder", w1, str(td / "existing" / "check5.py")), ("inside-existing-folder", w1, "a/b/check6.py"),
+                      ("outside-from-deeper-cwd", w1 / "deep", "../../out3/new/check7.py"), ("inside-dot-spelling", w1, "./q/../r/check8.py"),
+                      ("outside-one-new-folder", w1, str(td / "out4" / "check9.py"))]
+        for k, (pname, wd, answer) in enumerate(placements):
+            sel = rng.choice(sels[: len(names)])
+            target = Path(os.path.normpath(os.path.join(wd, answer)))
+            try:
+                text = real_generate(sel, "PLC", target, workdir=wd, answer=answer)
+                compile(text, str(target), "exec")
+                spec = importlib.util.spec_from_file_location(f"c19_gp{k}", target)
+                mod = importlib.util.module_from_spec(spec)
+                spec.loader.exec_module(mod)
+                ok = sorted(t.__name__ for t in extract_function_types(mod.check)) == sorted(sel)
+                why = "subscribes to other node types" if not ok else ""
+            except BaseException as e:  # noqa: BLE001
+                ok, why = False, f"{type(e).__name__}: {e}"
+            ctx.case(("placement", pname), nontrivial=True, sample={"placement": pname, "cwd": str(wd.relative_to(td)), "answer": answer.replace(str(td), "<tmp>"), "generated": ok} if k < 3 else None)
+            ctx.count("placement")
+            if not ok:
+                ctx.report(f"gen:placement:{pname}", f"`refurb gen` with file name {answer.replace(str(td), '<tmp>')!r} (cwd <tmp>/{wd.relative_to(td)}) did not produce a working check: {why[:200]}",
+                           {"selection": sel, "cwd": str(wd), "answer": answer, "error": why})
         # ---- a sample really linted with --load on a file that contains every node kind
         (td / "plugs" / "__init__.py").write_text("")
         probe = VERIF / "corpus" / "C04" / "kitchen.py"
